@@ -64,8 +64,10 @@ def run(tier, seed):
     for s in states:
         keyed[json.dumps([s["hist"], s["name"], s["layout"], s["nlev"], s["restarts"]], sort_keys=True)] = s
     states = list(keyed.values())
-    if tier == "quick" and len(states) > 2500:
-        states = states[:: len(states) // 2500 + 1]
+    cap = 2500 if tier == "quick" else 20000
+    run.info["behaviours_enumerated"] = len(states)
+    if len(states) > cap:
+        states = states[:: len(states) // cap + 1]      # replay a 1-in-k subsample of the enumerated behaviours
     jobs = [(s, i) for i, s in enumerate(states)]
     res = E.pmap(E.check_catalogue, jobs)
     for (s, _), fnds in zip(jobs, res):
